@@ -26,7 +26,17 @@ inductive Filt where
   | copy (src dst : String)         -- `if src in d: d[dst] = d[src]`, accepted
   | ifTruthy (k : String)           -- `lambda d: d.get(k)`
   | ifDefined (k : String)          -- `lambda d: d.get(k) is not UNDEF`  (cf. `not_from_undef`)
+  | clear                           -- `d.clear(); return d` / `return {}` / deletes every key:
+                                    --   an EMPTY mapping is a mapping, not a rejection
+  | replace (m : Data)              -- `lambda d: {...}`: a new mapping (dict, UserDict, ChainMap, …)
+                                    --   of any size, the empty one included
   deriving DecidableEq, Repr, Inhabited
+
+/-- the script returns a mapping (`isinstance(retval, MutableMapping)`), or edits in place and
+    returns a true value: the event goes on with that mapping WHATEVER ITS SIZE -/
+def Filt.returnsMapping : Filt → Bool
+  | .set .. | .del .. | .copy .. | .clear | .replace .. => true
+  | _ => false
 
 /-- one filter call: `none` = rejected, `some d` = the data that go on -/
 def Filt.apply (f : Filt) (d : Data) : Option Data :=
@@ -44,6 +54,8 @@ def Filt.apply (f : Filt) (d : Data) : Option Data :=
   | .ifDefined k => match d.get? k with
     | some .undef => none
     | _ => some d
+  | .clear => some []
+  | .replace m => some m
 
 /-- the filter loop of `Event.send` -/
 def runFilters : List Filt → Data → Option Data
